@@ -99,6 +99,17 @@ func (in *instance) gate(op opInfo) (fault, bool) {
 			return fFail, false
 		}
 	}
+	if in.crashAt == in.nops && in.buf != nil {
+		// the issuer operations of a submission are one event for the model: a crash is placed
+		// between events, so it is postponed past the submission
+		in.crashAt++
+	}
+	if in.crashAt == in.nops && op.kind == "discard" {
+		// a dead instance still runs to the end of sequencePool, whose cachePut (a local SQLite write,
+		// not gated) follows the Discard whose error is ignored: a crash placed here could not be
+		// simulated faithfully, so it is moved to the next operation
+		in.crashAt++
+	}
 	if in.crashAt == in.nops {
 		in.dead = true
 		w.logf(nil, "ev|crash|%d", in.id)
